@@ -21,6 +21,9 @@ ASSUMPTIONS = ["BlockValue.size_exponent <= 7 for block values in the handler st
 
 
 def check(env, rep, tier):
+    include(rep, env, tier, "c13", ("C13.1",), "C09.11",
+            "'a Block1 option echoing its number': the acknowledged value reaches the wire with NUM, M and SZX at their RFC 7959 bit "
+            "positions (a hand-rolled encoder that sizes NUM one bit short renumbers blocks 16..31)")
     include(rep, env, tier, "c10", ("C10.1",), "C09.10",
             "'for every budget that admits the client's block size ... answered 2.31': the size negotiation computes its bound without "
             "overflowing for any budget (a regrouped sum fails for budgets near usize::MAX) and fails cleanly below the overhead")
